@@ -64,6 +64,27 @@ let parse_tree lines =
   if !rest <> [] then raise (Bad "tree: trailing nodes");
   t
 
+(* preorder dump "t <p> <maxd> <pard> <scale> <nchildren>" -> ctree *)
+let parse_ctree lines =
+  let rest = ref lines in
+  let rec go () =
+    match !rest with
+    | [] -> raise (Bad "ctree: truncated")
+    | l :: tl ->
+      rest := tl;
+      (match toks_of l with
+       | ["t"; p; md; pd; sc; nch] ->
+         let nch = ios nch in
+         if nch < 0 || nch > 100000 then raise (Bad "ctree: child count");
+         let rec kids i = if i >= nch then [] else let c = go () in c :: kids (i + 1) in
+         let ch = kids 0 in
+         CN (z_of_int (ios p), z_of_int (ios md), z_of_int (ios pd), nat_of_int (ios sc), ch)
+       | _ -> raise (Bad "ctree: node line"))
+  in
+  let t = go () in
+  if !rest <> [] then raise (Bad "ctree: trailing nodes");
+  t
+
 let read_lines n = List.init n (fun _ -> input_line stdin)
 
 let () =
@@ -122,6 +143,23 @@ let () =
                    (zlo sel) (match sel with None -> "?" | Some r -> zl (dists_sorted dfun q r))
                with Bad m -> Printf.printf "K ? 0 0 | bad %s |\n" m)
              (read_lines (ios n))
+         | ["CT"; kk; nnodes] ->
+           (* kk = internal_k = the k passed to k_nearest_neighbor *)
+           let kk = nat_of_int (ios kk) in
+           let nn = nat_of_int !n_cur in
+           let t = parse_ctree (read_lines (ios nnodes)) in
+           let inv = ct_inv_b dfun t and holds = ct_holds_b nn t in
+           if not (inv && holds) then Printf.printf "CT 0 0 inv=%s holds=%s\n" (b01 inv) (b01 holds)
+           else begin
+             match ct_query dfun kk (valid_b dfun (leaf_points t) kk) (ct_fuel t) t with
+             | None -> Printf.printf "CT 0 0 inv=1 holds=1 query=out-of-fuel\n"
+             | Some (rows, ok) ->
+               if not ok then Printf.printf "CT 0 0 inv=1 holds=1 audit=0\n"
+               else begin
+                 Printf.printf "CT 1 %d inv=1 holds=1 audit=1\n" (List.length rows);
+                 List.iter (fun (q, cands) -> Printf.printf "CQ %d : %s\n" (int_of_z q) (zl cands)) rows
+               end
+           end
          | ["END"] -> print_string "END\n"
          | _ -> print_string "? unknown\n"
        with Bad m -> Printf.printf "? bad-input %s\n" m);
